@@ -314,6 +314,6 @@ func bigAbs(d *big.Float) float64 {
 
 func init() {
 	Register("C18",
-		"numeric lists of 0-20 elements in four classes: exact (small ints and dyadic fractions with <= 4 significant bits, <= 10 elements, so every partial sum/product is exactly representable), general (ints up to 2^40 and floats m*2^e with |e| <= 20, all-negative / all-positive / mixed sign, ints and floats in every order), fullrange (any int; +-MaxFloat64, +-1e300, +-9.3e18, 1e19, subnormals, +-0; Min/Max only) and intfamily (ints interleaved with floats, nil, bools, strings, lists, objects, or no ints at all). Oracle: Sum/Prod/Avg equal the math/big fold rounded once (exact class) or lie within (n+1)*2^-53*sum|x| resp. relative (n+1)*2^-53 of it (general class); Min/Max equal the float64 fold exactly in all classes; IntSum/IntProd equal the wrapping Go fold over exactly the int elements, IntMin/IntMax exact; empty: 0 / 1 / 0; list unchanged. Non-trivial = >= 2 qualifying elements with a negative value, an int/float mixture, or interleaved non-ints. Distinct = distinct FNV-64a hash of the case JSON.",
+		"numeric lists of 0-20 (occasionally 64-100, then with small magnitudes) elements, built through drawn construction routes, in four classes: exact (small ints and dyadic fractions with <= 4 significant bits, <= 10 elements, so every partial sum/product is exactly representable), general (ints up to 2^40 and floats m*2^e with |e| <= 20, all-negative / all-positive / mixed sign, ints and floats in every order), fullrange (any int; +-MaxFloat64, +-1e300, +-9.3e18, 1e19, subnormals, +-0; Min/Max only) and intfamily (ints interleaved with floats, nil, bools, strings, lists, objects, or no ints at all). Oracle: Sum/Prod/Avg equal the math/big fold rounded once (exact class) or lie within (n+1)*2^-53*sum|x| resp. relative (n+1)*2^-53 of it (general class); Min/Max equal the float64 fold exactly in all classes; IntSum/IntProd equal the wrapping Go fold over exactly the int elements, IntMin/IntMax exact; empty: 0 / 1 / 0; list unchanged. Non-trivial = >= 2 qualifying elements with a negative value, an int/float mixture, or interleaved non-ints. Distinct = distinct FNV-64a hash of the case JSON.",
 		GenC18, CheckC18)
 }
